@@ -302,7 +302,25 @@ func isAllocatingFunc(w *World, fi *FuncInfo, named *types.Named) bool {
 func checkDiscipline(w *World, r *Report, la *LockAnalysis, filter func(sharedStruct) bool) {
 	table := map[*types.Var]guardRow{}
 	for _, row := range guardTable() {
-		table[w.Field(w.pkgByShort(row.pkg), row.strct, row.field)] = row
+		// a row whose field (or lock) no longer exists does not take the other rows down:
+		// it is reported as undecided for the struct it belongs to, when that struct is selected
+		fv, err := tryField(w, w.pkgByShort(row.pkg), row.strct, row.field)
+		if err == "" && row.mu != "" {
+			_, err = tryField(w, w.pkgByShort(row.pkg), row.strct, row.mu)
+		}
+		if err != "" {
+			selected := filter == nil
+			for _, ss := range sharedStructs {
+				if ss.name == row.strct && filter != nil && filter(ss) {
+					selected = true
+				}
+			}
+			if selected {
+				r.Undecided("R09.1", "table:"+row.strct+"."+row.field, 0, "the guarded-by table names %s.%s (%s), which no longer exists in that form: the discipline of this state cannot be decided (%s)", row.strct, row.field, row.kind, err)
+			}
+			continue
+		}
+		table[fv] = row
 	}
 	structOf := map[*types.Var]sharedStruct{}
 	named := map[string]*types.Named{}
@@ -413,6 +431,8 @@ func checkDiscipline(w *World, r *Report, la *LockAnalysis, filter func(sharedSt
 				r.OK("R09.1", construct, a.Pos(), false, "through sync/atomic")
 			} else if isFreshAccess(a) {
 				r.OK("R09.1", construct, a.Pos(), true, "object still private to its allocating function")
+			} else if a.Kind == "addr" && addrOnlyForAtomic(w, a) {
+				r.OK("R09.1", construct, a.Pos(), true, "the address is handed to a private function that uses it only through sync/atomic")
 			} else {
 				r.Fail("R09.1", construct, a.Pos(), "atomic field %s.%s is accessed without sync/atomic (%s)", ss.name, a.Field.Name(), a.Kind)
 			}
@@ -497,4 +517,68 @@ func checkDiscipline(w *World, r *Report, la *LockAnalysis, filter func(sharedSt
 // requests (analysis cache entries, invokers, builders, descriptors).
 func checkRecordConfinement(w *World, r *Report, la *LockAnalysis) {
 	checkDiscipline(w, r, la, func(ss sharedStruct) bool { return ss.confined })
+}
+
+// tryField resolves a field, returning the reason as a string instead of aborting the run.
+func tryField(w *World, p *packages.Package, structName, field string) (fv *types.Var, why string) {
+	defer func() {
+		if e := recover(); e != nil {
+			if u, ok := e.(undecidedErr); ok {
+				fv, why = nil, u.msg
+				return
+			}
+			panic(e)
+		}
+	}()
+	return w.Field(p, structName, field), ""
+}
+
+// addrOnlyForAtomic: &x.f is an argument of a call to a repository function whose
+// corresponding (pointer) parameter is used only as an argument of sync/atomic functions.
+func addrOnlyForAtomic(w *World, a *Access) bool {
+	if a.Node == nil || a.Unit == nil {
+		return false
+	}
+	info := a.Unit.pkg.TypesInfo
+	ok := false
+	for _, c := range callsIn(a.Node, false) {
+		for i, arg := range c.Args {
+			ue, isU := unparen(arg).(*ast.UnaryExpr)
+			if !isU || fieldOf(info, ue.X) != a.Field {
+				continue
+			}
+			cal := callee(info, c)
+			if cal == nil || w.Decls[cal] == nil {
+				return false
+			}
+			t := w.Decls[cal]
+			tinfo := t.Pkg.TypesInfo
+			var params []*ast.Ident
+			for _, f := range t.Decl.Type.Params.List {
+				params = append(params, f.Names...)
+			}
+			if i >= len(params) {
+				return false
+			}
+			po := tinfo.Defs[params[i]]
+			uses, good := 0, true
+			ast.Inspect(t.Decl.Body, func(x ast.Node) bool {
+				cc, isC := x.(*ast.CallExpr)
+				if isC && isAtomicFunc(callee(tinfo, cc)) {
+					for _, aa := range cc.Args {
+						if objOf(tinfo, aa) == po {
+							uses++
+						}
+					}
+					return false
+				}
+				if id, isId := x.(*ast.Ident); isId && tinfo.Uses[id] == po {
+					good = false // any other use of the pointer
+				}
+				return true
+			})
+			ok = good && uses > 0
+		}
+	}
+	return ok
 }
